@@ -1669,7 +1669,7 @@ class Generator:
             left_quote, right_quote = self.dialect.QUOTE_START, self.dialect.QUOTE_END
 
         if escape:
-            escape_pattern = re.compile(rf"{escape.name}(\d+)")
+            escape_pattern = re.compile(rf"{re.escape(escape.name)}(\d+)")
             escape_sql = f" UESCAPE {self.sql(escape)}" if self.SUPPORTS_UESCAPE else ""
         else:
             escape_pattern = ESCAPED_UNICODE_RE
